@@ -77,7 +77,7 @@ def choose_items(prop, tier, seed, n, select=None, mode_fraction=0.0, delay=Fals
                 out.append(i)
                 continue
             mode = rng.choice(["thread", "thread", "process"])
-            it = {"i": i, "mode": mode, "workers": rng.choice(WORKER_CHOICES if mode == "thread" else [1, 2, 3, 4, 5, 6])}
+            it = {"i": i, "mode": mode, "workers": rng.choice(WORKER_CHOICES if mode == "thread" else [1, 2, 3, 4, 5, 6, 11, 16])}
             if delay:
                 it["delay"] = {"salt": f"{seed}-{i}", "max_ms": 2.0, "p": 0.3}
             out.append(it)
